@@ -39,6 +39,7 @@ def run(chk, ix, tier):
         (T.t_scenario, (("H2", "V2", "R4"),)),
         (T.t_run_model, (("H4", "STM", "V6", "V4"),)),
         (t_skip, ()),
+        (T.t_abort_wiring, ()),      # a failing before_all / after_all hook aborts the run through Context.abort(reason=...)
     ] + T.container_tasks(("H2", "ST", "V3")))
     for r, n in (("H1", 10), ("H2", 3), ("H3", 8), ("H4", 1), ("H5", 10), ("H6", 2)):
         chk.require_instances(r, n)
